@@ -566,6 +566,8 @@ def key_of(cfg: dict, symptom: str) -> str:
 def run_job(job: dict) -> JobResult:
     res = JobResult()
     base = job["base"]
+    # only the thorough tier enumerates EVERY byte offset; quick enumerates the structural subset completely
+    res.exhaustive = job["tier"] == "thorough"
     try:
         tlsrig.determinism_guard(base["kind"], base["version"], base["role"])
         res.count("length_trace_guard_runs", 2)
@@ -616,6 +618,7 @@ def run_job(job: dict) -> JobResult:
             res.nontrivial.add(digest((cls_of(cfg), cfg["family"], cfg["sc"], cfg["recv"], cfg["cut_full"], region, obs["wrap"], obs["reader"],
                                        len(obs["plaintext"]), obs["close"], round(obs["close_elapsed"]), obs["peer_saw_close_notify"])))
         res.count("cut_offsets_" + cfg["family"])
+        res.transitions += 1  # one injected fault (cut) per session
     for sym, (cfg, msg) in found.items():
         res.violations.append(Violation(key_of(cfg, sym), f"{describe(cfg)}: {msg}", {"cfg": cfg, "choices": []}))
     if len(res.samples) < 1 and base["family"] == "peer-closes":
